@@ -79,6 +79,17 @@ class Units:
         self.conflict = set()
         self.viol = []
         self.abs = set()    # locals that hold an absolute codepoint position
+        # the parameters of the conversion functions themselves carry the unit their callers must pass
+        for rx, exp in PARAM:
+            if re.search(rx, body.id):
+                for idx, u in exp.items():
+                    if 1 <= idx + 0 <= body.argc and not str(body.local_ty(idx + 0)).startswith("&"):
+                        pass
+                # argument indices in PARAM count the receiver as 0 for methods: local 1 is self
+                for idx, u in exp.items():
+                    l = idx + 1
+                    if l <= body.argc and re.match(r"^(usize|isize|u\d+|i\d+)$", str(body.local_ty(l))):
+                        self.unit[l] = u
         self._run()
         self._run_space()
 
